@@ -445,6 +445,7 @@ class SockObj(object):
             if self._closed:
                 raise _err(E.EBADF)
             if not ok:
+                s.count("sock:send-timeout")
                 raise _rs.timeout("timed out")
         m = len(data) if len(data) < sp else sp
         m = k.frag(m, k.cfg.send_frag)
@@ -957,13 +958,14 @@ class Kernel(object):
         if kind == "dgram":
             return ("r" if d.dgrams else "") + "w"
         if kind == "pipe_r":
+            # Linux: data -> POLLIN; writer gone -> POLLHUP, and POLLIN only while data is still buffered
             rx = d.rx
-            m = "r" if rx.readable() else ""
-            if rx.fin and not rx.inflight and not rx.buf:
+            m = "r" if rx.buf else ""
+            if (rx.fin or rx.rst) and not rx.inflight:
                 m += "h"
             return m
         if kind == "pipe_w":
-            return "w" if not d.tx.rgone else "e"
+            return "w" if not d.tx.rgone else "we"
         if kind != "stream":
             return "h"
         rx = d.rx
